@@ -433,6 +433,19 @@ func (in *Interp) modelValues() ([]interface{}, error) {
 			e["v"] = hex.EncodeToString(b)
 		case "choose":
 			e["v"] = fmt.Sprint(inp.N)
+		case "lz":
+			n := 0
+			for _, t := range inp.Terms {
+				if t.Const {
+					if t.Uint() != 0 {
+						break
+					}
+				} else if get(t.S).Sign() != 0 {
+					break
+				}
+				n++
+			}
+			e["v"] = fmt.Sprint(n)
 		case "atom":
 			id := inp.Terms[0].S
 			idv := get(id).Text(16)
